@@ -98,6 +98,27 @@ def grammarOps (st : State) (op : String) (ts : List String) : Option (State × 
       | some (ps, []) => some ({ st with seen := (n, ps) :: st.seen.filter (·.1 != n) }, "ok")
       | _ => some (st, bad)
     | _ => some (st, bad)
+  | "set_config" =>
+    -- `set_config <name> <disable_dict> <disable_seen> <unary pairs> <seen pairs> <targets> <dict>`: the named
+    -- seen-rule set and unary table become what `Config.readParams` makes of the raw strings
+    match ts with
+    | n :: dd :: ds :: rest =>
+      match (do
+        let (u, ts) ← pList OpsConfig.pPairS rest
+        let (s, ts) ← pList OpsConfig.pPairS ts
+        let (t, ts) ← pList pStr ts
+        let (d, ts) ← pList OpsConfig.pDictS ts
+        pure ((u, s, t, d), ts)) with
+      | some ((u, s, t, d), []) =>
+        match Config.readParams { unaryRules := u, seenRules := s, targets := t, catDict := d } (dd == "1") (ds == "1") with
+        | .error e => some (st, "err " ++ e.name)
+        | .ok L =>
+          match L.seen with
+          | some S =>
+            some ({ st with seen := (n, S) :: st.seen.filter (·.1 != n), unary := (n, L.table) :: st.unary.filter (·.1 != n) }, "ok")
+          | none => some (st, "err Unsupported")          -- (a named set cannot stand for "no filter": use `-`)
+      | _ => some (st, bad)
+    | _ => some (st, bad)
   | "set_unary" =>
     match ts with
     | n :: rest =>
